@@ -14,7 +14,7 @@ cleanup() { git -C /repo worktree remove --force "$WT" 2>/dev/null; rm -rf "$WT"
 trap cleanup EXIT
 cd "$WT" || exit 2
 DEMO=$(ls "$SRC" | grep -E '^demo.*\.go$' | head -1)
-DEST=$(grep -oE "cp [^ ]*$DEMO +[^ ]+" "$SRC/HOWTO.txt" | head -1 | awk '{print $3}')
+DEST=$(grep -oE "cp [^ ]*$DEMO +[^ ]+" "$SRC/HOWTO.txt" | head -1 | awk '{print $3}' | sed -E 's#^<[^>]*>/##; s#^/tmp/mut/[A-Z0-9]+/##')
 CMD=$(grep -E '^\s*go test ' "$SRC/HOWTO.txt" | head -1 | sed 's/^\s*//')
 if [ -z "$DEST" ] || [ -z "$CMD" ]; then echo "CANNOT PARSE HOWTO ($DEST | $CMD)"; exit 2; fi
 echo "demo -> $DEST ; cmd: $CMD"
@@ -22,6 +22,7 @@ if ! git apply "$SRC/patch.diff"; then echo "RESULT $ID: patch does not apply to
 if ! go build ./... ; then echo "RESULT $ID: does not build"; exit 1; fi
 cp "$SRC/$DEMO" "$DEST"
 if (eval "timeout 600 $CMD") > /tmp/cm/$ID.demo_with.log 2>&1; then echo "RESULT $ID: demo PASSES with the patch (not a demonstration)"; exit 1; fi
+if grep -q 'no tests to run' /tmp/cm/$ID.demo_with.log; then echo "RESULT $ID: demo did not run (no tests to run)"; exit 1; fi
 echo "demo fails with patch: ok"
 rm -f "$DEST"
 SUITE="skipped"
